@@ -29,9 +29,10 @@ class Unsupported(Exception):
 class Tok:
     kind: str  # 'P' | 'K'
     key: Any
+    alt: Any = None   # `tok or default`: what the argument is replaced by when its value is falsy (0, False, "")
 
     def __repr__(self):
-        return f"{self.kind}:{self.key}"
+        return f"{self.kind}:{self.key}" + (f" (replaced by {self.alt!r} when the value is 0/False/empty)" if self.alt is not None else "")
 
 
 @dataclass(frozen=True)
@@ -174,8 +175,13 @@ class ArmEval:
                         return v if not isinstance(v, _Unk) else Def(False)
                 return v if not isinstance(v, _Unk) else Def(True)
             v = Def(False)
-            for e in n.values:
+            for i_, e in enumerate(n.values):
                 v = self.ev(e, env)
+                if isinstance(v, Tok) and i_ + 1 < len(n.values) and v.alt is None:
+                    # `arg or default`: a supplied 0 / False / "" is silently replaced
+                    rest = self.ev(n.values[i_ + 1], env)
+                    if isinstance(rest, Def) or rest is NONE:
+                        return Tok(v.kind, v.key, rest)
                 if self.truth(v):
                     return v if not isinstance(v, _Unk) else Def(True)
             return v if not isinstance(v, _Unk) else Def(False)
